@@ -84,19 +84,41 @@ fn replay_aln(beh: &Value) -> Value {
     json!({"ok": true, "kind": "aln", "drift": drift})
 }
 
-/// Counting-filter behaviour: {k, rc, minc, reads:[[bytes]], ords:[-1|0|1 ...]}
+/// Counting-filter behaviour: {minc, obs:["x1","x2",..], ords:[bool: added now]}
+/// Each abstract k-mer is a concrete 5-mer read (x1, x2 share their arms); run single-strand
+/// with forward reads, and with merged strands presenting every other sighting reverse-complemented.
 fn replay_filter(beh: &Value) -> Value {
-    let op = json!({"op": "filter_seq", "w": 64, "k": beh["k"], "rc": beh["rc"], "minc": beh["minc"], "reads": beh["reads"]});
-    let ev = ops::exec(&op);
-    if ev["panic"].as_str().unwrap_or("") != "" {
-        return verdict("filter", false, "panic", beh["ords"].clone(), ev);
-    }
-    let got: Vec<Value> = ev["obs"].as_array().unwrap().iter().map(|o| o["ord"].clone()).collect();
+    let fwd = |x: &str| match x {
+        "x1" => "AAGTC",
+        "x2" => "AACTC",
+        _ => "GGATT",
+    };
+    let rcs = |x: &str| match x {
+        "x1" => "GACTT",
+        "x2" => "GAGTT",
+        _ => "AATCC",
+    };
     let want = beh["ords"].as_array().cloned().unwrap_or_default();
-    // expected entries are booleans "passes now" : ord == 0
-    let gotb: Vec<Value> = got.iter().map(|o| json!(o.as_i64() == Some(0))).collect();
-    if gotb != want {
-        return verdict("filter", false, "pass/fail sequence differs", json!(want), json!(gotb));
+    for rc in [false, true] {
+        let reads: Vec<Value> = beh["obs"]
+            .as_array()
+            .unwrap()
+            .iter()
+            .enumerate()
+            .map(|(i, x)| {
+                let name = x.as_str().unwrap();
+                json!(if rc && i % 2 == 1 { rcs(name) } else { fwd(name) })
+            })
+            .collect();
+        let op = json!({"op": "filter_seq", "w": 64, "k": 5, "rc": rc, "minc": beh["minc"], "reads": reads});
+        let ev = ops::exec(&op);
+        if ev["panic"].as_str().unwrap_or("") != "" {
+            return verdict("filter", false, "panic", beh["ords"].clone(), ev);
+        }
+        let gotb: Vec<Value> = ev["obs"].as_array().unwrap().iter().map(|o| json!(o["ord"].as_i64() == Some(0))).collect();
+        if gotb != want {
+            return verdict("filter", false, if rc { "pass/fail sequence differs (strands merged)" } else { "pass/fail sequence differs" }, json!(want), json!(gotb));
+        }
     }
     verdict("filter", true, "", Value::Null, Value::Null)
 }
